@@ -136,6 +136,18 @@ def _coerce_scalar(value: Any) -> Any:
         return value
 
 
+def _reject_duplicate_names(names: List[str], where: str) -> None:
+    """Raise when two columns of one source end up under the same key."""
+    seen: set[str] = set()
+    duplicates: List[str] = []
+    for name in names:
+        if name in seen and name not in duplicates:
+            duplicates.append(name)
+        seen.add(name)
+    if duplicates:
+        raise ConfigurationError(f"{where} names the key(s) {duplicates} more than once")
+
+
 def _append_row(
     columns: Dict[str, List[Any]], row: Mapping[Any, Any], index: int
 ) -> None:
@@ -185,6 +197,7 @@ def _load_source_file(path: Path, file_format: str) -> Dict[str, List[Any]]:
 
             # Strip whitespace from field names to handle "value, factor, addend" style headers
             stripped_fieldnames = [field.strip() for field in reader.fieldnames]
+            _reject_duplicate_names(stripped_fieldnames, "CSV source header")
             columns = {field: [] for field in stripped_fieldnames}
             fieldname_map = {
                 original: stripped
@@ -237,6 +250,9 @@ def _load_source_file(path: Path, file_format: str) -> Dict[str, List[Any]]:
                 _append_row(columns, row, index)
             return columns
         elif isinstance(payload, Mapping):
+            _reject_duplicate_names(
+                [str(key) for key in payload], f"{file_format.upper()} source mapping"
+            )
             return {
                 str(key): [value] if not isinstance(value, list) else list(value)
                 for key, value in payload.items()
